@@ -44,6 +44,7 @@ import Restful.Lemmas.TieImpPrefix
 import Restful.Lemmas.TieImpRegistry
 import Restful.Lemmas.TieImpBuild
 import Restful.Lemmas.TieImpAdd
+import Restful.Lemmas.TieImpSvcPath
 namespace Restful
 namespace Props
 open Registry
@@ -379,3 +380,4 @@ end Restful
 -- also: Restful.TieImp.copy_defaults
 -- also: Restful.TieImp.build_route_no_function
 -- also: Restful.TieImp.container_add
+-- also: Restful.TieImp.web_service_path
